@@ -42,8 +42,8 @@ TX_OPS = ["Send", "ActivateSelf", "ActivateOther", "InviteF", "Kill", "KillInvit
           "KillDelegatorX", "KillDelegatorXByG", "ReplenishX", "DelegateDX", "ActivateF"]
 NEVER_ADMITTED = {"ChangeGod", "InviteXByS", "KillInviteeXByG", "KillDelegatorXByG"}
 ALWAYS_IN_BLOCK = {"Send", "Burn", "ChangeProfile", "StoreToIpfs"}      # (a mempool refuses them during flip lottery and short session)
-BLOCK_OPS = ["Flush", "NextPeriod", "EpochEnd", "Penalty"]
-COST = {"Flush": 8, "NextPeriod": 1, "EpochEnd": 7, "Penalty": 2}      # blocks a step takes on the chain (estimates for the budget)
+BLOCK_OPS = ["Flush", "NextPeriod", "Ceremony", "EpochEnd", "Penalty"]
+COST = {"Flush": 8, "NextPeriod": 1, "Ceremony": 4, "EpochEnd": 7, "Penalty": 2}      # blocks a step takes on the chain (estimates for the budget)
 TX_TYPES = {0: "SendTx", 1: "ActivationTx", 2: "InviteTx", 3: "KillTx", 4: "SubmitFlipTx", 5: "SubmitAnswersHashTx", 6: "SubmitShortAnswersTx",
             7: "SubmitLongAnswersTx", 8: "EvidenceTx", 9: "OnlineStatusTx", 10: "KillInviteeTx", 11: "ChangeGodAddressTx", 12: "BurnTx",
             13: "ChangeProfileTx", 14: "DeleteFlipTx", 18: "DelegateTx", 19: "UndelegateTx", 20: "KillDelegatorTx", 21: "StoreToIpfsTx",
@@ -114,11 +114,18 @@ def _select(ctx, exports, rnd, quick):
         for k in keyfn(e):
             if not near[k] or (_cost(e["path"]) <= _cost(near[k][0]["path"]) + 1 and len(near[k]) < 4):
                 near[k].append(e)
-    # the representative of a stratum: seeded choice among the cheapest paths the model printed for it
-    best = {k: near[k][rnd.randrange(len(near[k]))] for k in sorted(near)}
+    # the representative of a stratum: seeded choice among the cheapest paths the model printed for it (the thorough tier
+    # takes a second one where the model printed several)
+    best, second = {}, {}
+    for k in sorted(near):
+        c = list(near[k])
+        rnd.shuffle(c)
+        best[k] = c[0]
+        if not quick and len(c) > 1:
+            second[k] = c[1]
     rest = sorted(best)
     rnd.shuffle(rest)
-    budget = 3400 if quick else 10 ** 9
+    budget = 4500 if quick else 10 ** 9
     chosen, covered, paid, blocks = {}, set(), set(), 0
 
     def take(e, force):
@@ -139,6 +146,8 @@ def _select(ctx, exports, rnd, quick):
     for k in rest:
         if k not in covered:
             take(best[k], False)
+    for k in sorted(second):
+        take(second[k], False)
     # merge
     groups = collections.OrderedDict()
     for pid in sorted(chosen):
@@ -152,7 +161,7 @@ def _select(ctx, exports, rnd, quick):
             # the fifth block after the start of the after-long period ends the epoch unless ceremony transactions came: four attempts fit
             k = 0
             for st in g["prefix"][::-1]:
-                if st["n"] == "NextPeriod":
+                if st["n"] in ("NextPeriod", "Ceremony"):
                     break
                 k += 1
             size = max(1, 3 - k)
